@@ -55,7 +55,7 @@ class _Baton:
 
 class CT:
     __slots__ = ('name', 'sem', 'alive', 'killed', 'blocked', 'proc', 'th',
-                 'traced', 'wake_at', 'kind', 'label', 'exc')
+                 'traced', 'wake_at', 'kind', 'label', 'exc', 'daemon')
 
     def __init__(self, name: str, proc: str, traced: bool) -> None:
         self.name = name
@@ -73,6 +73,7 @@ class CT:
         self.kind = 'new'
         self.label: Any = None
         self.exc: str | None = None
+        self.daemon = False
 
 
 class Sched:
